@@ -111,6 +111,9 @@ def fd_available(exe, args):
     return _FD_OK[d]
 
 
+_HANGS = [0]      # scripts that ran into the limit so far in this check run
+
+
 def run_batch(exe, scripts, limit=2.0, _confirm=True):
     """scripts: list of (id, args, presets, [events]) -> dict id -> (status, effects, report)
     A script that hits the watchdog is run again on its own with five times the limit before it is called a hang
@@ -125,7 +128,8 @@ def run_batch(exe, scripts, limit=2.0, _confirm=True):
         if not chunk:
             return ''
         inp = ''.join('%s\t%s\t%s\t%s\n' % (i, a + (' --fd' if fdopt and p and 'fd' in p.split(',') and '--fd' not in a.split() else ''), p or '-', ','.join(ev)) for i, a, p, ev in chunk)
-        p = subprocess.run([exe, '--limit', str(limit)], input=inp.encode(), stdout=subprocess.PIPE, stderr=subprocess.PIPE, env=env)
+        # once the check has seen 64 hangs the verdict is settled: every further batch process gives up at its first one
+        p = subprocess.run([exe, '--limit', str(limit if _HANGS[0] < 64 else min(limit, 20.0)), '--maxhang', '1' if _HANGS[0] >= 64 else '8'], input=inp.encode(), stdout=subprocess.PIPE, stderr=subprocess.PIPE, env=env)
         if p.returncode != 0:
             core.die_infra('batch harness died: rc=%s %s' % (p.returncode, p.stderr[-500:].decode('latin-1')))
         return p.stdout.decode('latin-1')
@@ -141,8 +145,17 @@ def run_batch(exe, scripts, limit=2.0, _confirm=True):
         core.die_infra('%d scripts produced no result line (first: %s)' % (len(missing), missing[0]))
     if _confirm:
         hung = [s for s in scripts if out[s[0]][0] == 'hang']
-        for sc in hung[:40]:
-            out[sc[0]] = run_batch(exe, [sc], limit=limit * 5, _confirm=False)[sc[0]]
+        _HANGS[0] += len(hung)
+        hung = hung[:16] if _HANGS[0] < 64 else hung[:2]
+        if limit > 4:
+            hung = []      # a limit this generous is not a matter of a busy machine
+        if hung:
+            # each on its own process slot (at most two per core at a time), five times the limit
+            for k in range(0, len(hung), n):
+                part = hung[k:k + n]
+                with cf.ThreadPoolExecutor(len(part)) as ex:
+                    for sc, r in zip(part, ex.map(lambda sc: run_batch(exe, [sc], limit=limit * 5, _confirm=False)[sc[0]], part)):
+                        out[sc[0]] = r
     return out
 
 
@@ -167,6 +180,8 @@ def classify(status, report):
         msg = re.sub(r'-?\d+', 'N', msg)
         f = os.path.basename(m.group(1)) if m else '?'
         return 'ubsan:%s: %s' % (f, msg)
+    if status == 'notrun':
+        return 'not run: the batch was abandoned after 8 scripts did not return within the limit'
     if status.startswith('returned'):
         return 'receive loop terminated by the datagram (main %s)' % status
     return status
